@@ -10,7 +10,6 @@ import (
 	"strings"
 	"time"
 	"unsafe"
-	"verif/checks/nbstate"
 
 	"github.com/TheManticoreProject/Manticore/network/netbios/nbtns"
 	"github.com/TheManticoreProject/Manticore/zz_verif/vnet"
@@ -42,15 +41,6 @@ func tableOf(srv any) *nbtns.NetBIOSNameServer {
 		}
 	}
 	return nil
-}
-
-func recordTTL(t *nbtns.NetBIOSNameServer, name string) (time.Time, bool) {
-	recs, ok := nbstate.Records(t)
-	if !ok {
-		return time.Time{}, false
-	}
-	r, ok := recs[name]
-	return r.TTL, ok
 }
 
 func mkQuery(id uint16, opcode int, name string) []byte { return mkQueryPad(id, opcode, name, -1) }
@@ -797,16 +787,19 @@ func classifyOpcode(x *exec, im impl, opc int) string {
 	// probe 3: release/refresh-shaped on the owned name, ten virtual minutes after registration
 	s, t = fresh()
 	vrt.Sleep(600 * sec)
-	ttl0, _ := recordTTL(t, "P")
 	r3, ok3 := send(mkUpdate(0x0303, opc, "P", ipX, false, 3600))
 	_, _, errP := t.QueryName("P")
-	ttl1, _ := recordTTL(t, "P")
 	s.Stop()
 	vrt.Drain(120 * sec)
 	if errP != nil {
 		return "release"
 	}
-	if ttl1.After(ttl0) {
+	// was the lease extended? (public API only) P was registered for one hour at minute 0; a refresh at minute 10
+	// moves the expiry to minute 70. 55 more virtual minutes put the clock at minute 65 or a little later, past minute 60 and before minute 70:
+	// the expiry sweep then removes P unless the request refreshed it
+	vrt.Sleep(3300 * sec)
+	t.CleanExpiredNames()
+	if _, _, errLate := t.QueryName("P"); errLate == nil {
 		return "refresh"
 	}
 	x.obs("probes: %v/%v %v/%v %v/%v", r1, ok1, r2, ok2, r3, ok3)
